@@ -10,7 +10,7 @@ use crate::gen::bytes::{bytes_strategy, expand_all, Bytes};
 use crate::refs::chunker::{self as rc, ChunkParams};
 use crate::refs::merkle;
 
-pub const RULE: &str = "streams = 1-4 concatenated byte recipes (random / constant / periodic / small-alphabet / float / text / literal) of total length 0..40*target, target in 2^7..2^16, fed through Chunker::next (honouring the consumed count), next_block, or next_block with the final flag, under a generated call partition (empty, 1-byte, sub-window, multi-chunk calls), then finish(); oracle = independent reference gear chunker + chunk-hash; non-trivial = target >= 1024 (skip-ahead live), >= 2 chunks, >= 1 hash-defined boundary, >= 3 calls and a call ending inside a chunk's skipped prefix; distinct = fingerprint of the generated case";
+pub const RULE: &str = "streams = 1-4 concatenated byte recipes (random / constant / periodic / small-alphabet / float / text / literal) of total length 0..40*target, target in 2^7..2^16, fed through Chunker::next (honouring the consumed count), next_block, or next_block with the final flag, under a generated call partition (empty, 1-byte, sub-window, multi-chunk calls), then finish(); stream 'large-target': targets 2^14..2^27 (weight on 2^23..2^25, where the maximum chunk reaches the 2^24 / 2^25 / 2^26 widths) with 1-2 constant / short-period / random parts of up to 5.5*target each (capped at 48 MiB per part in the quick and 320 MiB in the thorough tier), same drivers and oracle; oracle = independent reference gear chunker + chunk-hash; non-trivial = target >= 1024 (skip-ahead live), >= 2 chunks, >= 1 hash-defined boundary, >= 3 calls and a call ending inside a chunk's skipped prefix; distinct = fingerprint of the generated case";
 
 #[derive(Clone, Debug, Serialize, Deserialize)]
 pub struct StreamCase {
@@ -222,6 +222,9 @@ fn stream_oracle(c: &StreamCase, info: &mut Case) -> Result<(), String> {
     if o.max_cuts > 0 {
         info.label("has-max-cut");
     }
+    if c.target_log2 >= 17 {
+        info.label(if o.max_cuts > 0 { "large-target-with-max-cut" } else if o.hash_cuts > 0 { "large-target-with-hash-cut" } else { "large-target-single-chunk" });
+    }
     if o.call_in_skip {
         info.label("call-ends-in-skipped-prefix");
     }
@@ -280,11 +283,33 @@ fn locality_oracle(c: &LocalityCase, info: &mut Case) -> Result<(), String> {
     Ok(())
 }
 
+/// Stream 'large-target': targets 2^14..2^27 with streams long enough for several maximum-size chunks.
+/// `cap` bounds one recipe part (memory / time), so for the largest targets only shorter streams are seen.
+fn large_strategy(cap: u64) -> BoxedStrategy<StreamCase> {
+    prop_oneof![3 => 14u8..=22, 6 => 23u8..=25, 2 => 26u8..=27]
+        .prop_flat_map(move |tl| {
+            let t = 1u64 << tl;
+            let hi = (t * 11 / 2).min(cap) as u32;
+            let len = move || prop_oneof![1 => 0u32..=hi, 2 => (hi / 2)..=hi];
+            let part = prop_oneof![
+                3 => (any::<u8>(), len()).prop_map(|(byte, len)| Bytes::Const { byte, len }),
+                2 => (any::<u64>(), 1u16..=64, len()).prop_map(|(seed, period, len)| Bytes::Periodic { seed, period, len }),
+                2 => (any::<u64>(), len()).prop_map(|(seed, len)| Bytes::Random { seed, len }),
+                1 => bytes_strategy(0, 300),
+            ];
+            (Just(tl), proptest::collection::vec(part, 1..=2), proptest::collection::vec((0u8..8, any::<u16>()), 0..12), 0u8..3)
+                .prop_map(|(target_log2, parts, calls, mode)| StreamCase { target_log2, parts, calls, mode })
+        })
+        .boxed()
+}
+
 pub fn run(ctx: &Ctx) {
     let n_stream = ctx.tier.pick(480_000, 6_000_000);
     let n_local = ctx.tier.pick(120_000, 1_200_000);
     ctx.explore("stream", n_stream, 16, stream_strategy, stream_oracle);
     ctx.explore("locality", n_local, 16, locality_strategy, locality_oracle);
+    let cap: u64 = ctx.tier.pick(48, 320) << 20;
+    ctx.explore("large-target", ctx.tier.pick(96, 1_600), 4, move || large_strategy(cap), stream_oracle);
 }
 
 pub const ASSUMPTIONS: &[&str] = &[
